@@ -5,7 +5,7 @@ CONSTANTS
   MaxDelay = 2
   Horizon = 40
   InheritEarliestDue = FALSE
-  WidenIndividual = TRUE
-  MergeOnStart = FALSE
+  WidenIndividual = FALSE
+  MergeOnStart = TRUE
 INVARIANTS Covered Deadline
 CHECK_DEADLOCK FALSE
